@@ -122,6 +122,10 @@ impl<H: Hasher> BatchMerkleProof<H> {
         if indexes.len() > MAX_PATHS {
             return Err(MerkleTreeError::TooManyLeafIndexes(MAX_PATHS, indexes.len()));
         }
+        // the proof must carry exactly one leaf per index
+        if self.leaves.len() != indexes.len() {
+            return Err(MerkleTreeError::InvalidProof);
+        }
 
         let mut buf = [H::Digest::default(); 2];
         let mut v = BTreeMap::new();
